@@ -58,11 +58,34 @@ def total_msgs(s):
         n = s.get('producers', 3) * s.get('per', 20) + s.get('after', 2)
     if p == 'rejecting':
         n = (s['backlog'] + 1) * s.get('cycles', 1)
+    if s.get('late'):
+        n += s.get('cycles', 1) if p == 'cycles' else 1
     return n + s.get('after', 2)
 
 
 def bound_of(s):
-    return BOUND_S + 1.5 * total_msgs(s) * s['delay'] / 1000.0
+    # + 1 ms per message: a backlog of tens of thousands of messages takes its time on a loaded machine
+    return BOUND_S + 1.5 * total_msgs(s) * s['delay'] / 1000.0 + total_msgs(s) / 1000.0
+
+
+BIG = 1000      # recordings with more messages than this are outside the reach of the extracted acceptor (unary naturals, list
+                # comparison at every event: quadratic): direct oracles + the extracted counter test only
+
+
+def is_big(s):
+    return total_msgs(s) > BIG and s['path'] != 'race'
+
+
+def huge_backlog_scenarios(rng, thorough):
+    """a backlog beyond the range of a 16-bit (signed: 32 767, unsigned: 65 535) counter queued behind a sink that stalls
+    inside its first delivery until the stop has been called (+ 200 ms), then the stop: every message must be delivered"""
+    out = [scn('reset', 40000, 0, loop=0, stagger=1, holdfirst=1, after=1)]
+    if thorough:
+        out += [scn('quit', 70000, 0, stagger=1, holdfirst=1, after=1),
+                scn('scoped', rng.choice([33000, 50000]), 0, loop=rng.randint(0, 1), stagger=1, holdfirst=1),
+                scn('reset', rng.choice([32766, 32767, 32768]), 0, loop=1, stagger=1, holdfirst=1, after=1),
+                scn('cycles', 33000, 0, cycles=2, loop=0, stagger=1, holdfirst=1)]
+    return out
 
 
 YIELDS = ['', 'reset.quit:3000', 'reset.waiting:2000,own.posted:300', 'worker.processed:1500', 'own.before_lock:200,reset.locked:2000']
@@ -223,6 +246,14 @@ def scenarios(chk):
         out.append(scn('quit', 2, 1700, loop=1, after=0))
         out.append(scn('cycles', 1, 3200, cycles=2, loop=0))
     out += long_backlog_scenarios(rng, thorough)
+    out += huge_backlog_scenarios(rng, thorough)
+    # a message logged while the stop is under way and the logger thread is inside the pipeline for the LAST queued message
+    # (slow sink): it is queued behind it or delivered after it, never next to it
+    out.append(scn('reset', 2, 400, loop=0, stagger=1, late=100, after=1))
+    out.append(scn('reset', 1, 400, loop=1, late=100, after=rng.randint(0, 2)))
+    if thorough:
+        out += [scn('reset', rng.choice([1, 2, 3]), rng.choice([300, 500]), loop=rng.randint(0, 1), stagger=1, late=rng.choice([50, 100, 150]), after=1) for _ in range(4)]
+        out.append(scn('cycles', 2, 300, cycles=2, loop=0, stagger=1, late=100))
     out += rejecting_scenarios(rng, 12 if thorough else 4)
     if thorough:
         out += widened_scenarios(rng)
@@ -546,17 +577,35 @@ def run():
     def evaluate(pairs):
         """pairs of (scenario, child result) -> analysis + model verdicts (batched)"""
         mlines, olines, owner = [], [], []
+        small = [(s, r) for s, r in pairs if not is_big(s)]
         for s, r in pairs:
             r['problems'], r['toks'], r['facts'] = analyze(s, r)
+            r['oracle_bad'] = []
+            if is_big(s):
+                # the model's prediction for this backlog: is the drain loop entered?  (the loop test of the code on the
+                # translated width of m_pendingCount == the loop test of the model: C04_src_counter_covers_every_backlog)
+                n_pending = s['backlog']
+                _, co, _ = vlib.run_lines(model, [str(n_pending)], ['counter'])
+                cv = dict(kv.split('=') for kv in (co[0].split() if co else []) if '=' in kv)
+                waited = r['facts']['wait_iterations'] > 0
+                r['model'] = {'ok': True, 'skipped': True, 'predicts_hang': False, 'counter': cv,
+                              'raw': 'not fed to the acceptor (%d events); counter: %s; drain loop entered: %s' % (len(r['toks']), co[0] if co else '?', waited)}
+                if cv.get('code_test') != cv.get('model_test') or not cv:
+                    r['model']['ok'] = False
+                    r['model']['counter_disagrees'] = ('with %d messages pending the loop test of the drain loop on a %s-bit counter is %s, the model\'s test is %s'
+                                                       % (n_pending, cv.get('bits'), cv.get('code_test'), cv.get('model_test')))
+                elif cv.get('model_test') == '1' and not waited and not r['hung'] and r['facts']['posted'] >= n_pending:
+                    r['model']['ok'] = False
+                    r['model']['counter_disagrees'] = ('model: %d messages pending, the stop enters its wait loop; implementation: it never waited' % n_pending)
+                continue
             mlines.append(model_line(s, r['toks']))
             for (po, de, st) in r['facts']['oracle_points']:
                 olines.append('%s | %s | %d' % (','.join(map(str, po)), ','.join(map(str, de)), 1 if st else 0))
                 owner.append((s, r, (len(po), len(de), st)))
         _, mo, _ = vlib.run_lines(model, mlines)
         _, oo, _ = vlib.run_lines(model, olines, ['oracle'])
-        for (s, r), ml in zip(pairs, mo + [''] * (len(pairs) - len(mo))):
+        for (s, r), ml in zip(small, mo + [''] * (len(small) - len(mo))):
             r['model'] = parse_model(ml)
-            r['oracle_bad'] = []
         for (s, r, pt), v in zip(owner, oo + ['ERR'] * (len(owner) - len(oo))):
             if v.strip() != '1':
                 r['oracle_bad'].append(pt)
@@ -567,6 +616,8 @@ def run():
 
     def disagreement(s, r):
         mv = r['model']
+        if mv.get('skipped'):
+            return mv.get('counter_disagrees')
         if not mv.get('ok'):
             k = mv.get('rejected_at')
             return 'acceptor rejects the recording at event %s (%s) in model state [%s]' % (
@@ -598,10 +649,32 @@ def run():
         for kind, text in probs[:1]:
             k = kind_for(s, kind, r)
             by_kind.setdefault((k, s['path'] if k in ('exit_without_event_loop', 'crash_during_exit_drain') else ''), []).append((s, r, probs))
+    def shrink_backlog(s, r, probs, kind):
+        """smallest backlog (bisection between the largest ordinary backlog and the failing one, at most 14 children) that still
+        shows a violation of the same kind"""
+        lo, hi, best = 300, s['backlog'], (s, r, probs)
+        for _ in range(14):
+            if hi - lo <= 1:
+                break
+            mid = (lo + hi) // 2
+            s2 = dict(s, backlog=mid)
+            r2 = run_child(impl, s2)
+            evaluate([(s2, r2)])
+            if any(kind_for(s2, k2, r2) == kind for k2, _ in r2['problems']):
+                hi, best = mid, (s2, r2, [p for p in r2['problems']])
+            else:
+                lo = mid
+        return best + ({'shrunk_from_backlog': s['backlog'], 'largest_backlog_without_violation_seen': lo},)
+
     for (k, p), items in sorted(by_kind.items()):
         s, r, probs = min(items, key=lambda it: size_key(it[0]))
+        shrunk = None
+        if s.get('holdfirst') and s['backlog'] > BIG and not s.get('_san') and k in ('lost', 'stop_incomplete'):
+            s, r, probs, shrunk = shrink_backlog(s, r, probs, k)
         obj = replay_obj(s, r, probs, r.get('model'), k)
         obj['failing_scenarios_of_this_kind'] = len(items)
+        if shrunk:
+            obj.update(shrunk)
         obj['smallest_of'] = [' '.join(argv_of(it[0])) for it in sorted(items, key=lambda it: size_key(it[0]))[:6]]
         if not obj.get('stacks'):
             for it in items:
@@ -629,12 +702,18 @@ def run():
         'evaluations': len(pairs), 'distinct_nontrivial': len(nontrivial),
         'rule': 'one child process of the real library per scenario (path x backlog x sink delay x stagger/cfg/loop/cycles/'
                 'producers/hook delays); non-trivial = asynchronous and at least one message accepted; every recording goes '
-                'through the direct oracles, the extracted prop_c04_b at every stop point and the extracted acceptor',
+                'through the direct oracles, the extracted prop_c04_b at every stop point and the extracted acceptor; plus backlogs of 40 000 '
+                '(thorough: up to 70 000, and 32 766..32 768) tiny messages queued behind a sink that stalls in its first delivery until the stop '
+                'has been called: direct oracles + the extracted loop test on the translated counter width (those recordings are too long for the acceptor)',
         'by_path': hist(lambda s, r: s['path']), 'by_backlog': hist(lambda s, r: s['backlog']), 'by_delay_ms': hist(lambda s, r: s['delay']),
         'hung_children_by_path': {p: sum(1 for s, r in pairs if r['hung'] and s['path'] == p) for p in sorted({s['path'] for s in scs})},
         'oracle_points_evaluated': n_oracle, 'oracle_points_false': sum(len(r['oracle_bad']) for _, r in pairs),
-        'recordings_accepted_by_model': sum(1 for _, r in pairs if r['model'].get('ok')),
-        'recordings_rejected_by_model': sum(1 for _, r in pairs if not r['model'].get('ok')),
+        'recordings_accepted_by_model': sum(1 for _, r in pairs if r['model'].get('ok') and not r['model'].get('skipped')),
+        'huge_backlog_children_direct_oracles_and_counter_test_only': sum(1 for _, r in pairs if r['model'].get('skipped')),
+        'largest_backlog_messages': max(s['backlog'] for s, _ in pairs),
+        'largest_backlog_fully_delivered': max([0] + [s['backlog'] for s, r in pairs if not r['problems'] and int(s.get('async', 1)) and s['path'] not in F5_PATHS]),
+        'counter_test_at_largest_backlog': next((r['model'].get('counter') for s, r in sorted(pairs, key=lambda it: -it[0]['backlog']) if r['model'].get('skipped')), None),
+        'recordings_rejected_by_model': sum(1 for _, r in pairs if not r['model'].get('ok') and not r['model'].get('skipped')),
         'hang_prediction_agrees': sum(1 for _, r in pairs if bool(r['model'].get('predicts_hang')) == r['hung']),
         'unreproduced_disagreements': unreproduced,
         'unreproduced_examples': [' '.join(argv_of(s)) + ' :: ' + r['unreproduced_disagreement'][:300] for s, r in pairs if r.get('unreproduced_disagreement')][:3],
@@ -680,8 +759,12 @@ def replay(path):
     print('direct oracles ', probs or 'all satisfied')
     if r['rc'] not in (0, None):
         print('stderr         ', r.get('stderr_head', '')[:1500])
-    _, mo, _ = vlib.run_lines(model, [model_line(sc, toks)])
-    print('model acceptor ', mo[0] if mo else None)
+    if is_big(sc):
+        _, mo, _ = vlib.run_lines(model, [str(sc['backlog'])], ['counter'])
+        print('model          recording too long for the acceptor; loop test of the drain loop with %d pending: %s' % (sc['backlog'], mo[0] if mo else None))
+    else:
+        _, mo, _ = vlib.run_lines(model, [model_line(sc, toks)])
+        print('model acceptor ', mo[0] if mo else None)
     if r['stacks']:
         print('stacks:'); print('\n'.join(r['stacks'][:40]))
     return 0
